@@ -366,9 +366,13 @@ def parse_race_logs(paths):
             # library call it passed it to has returned: a library goroutine racing with that kept the argument
             fns = [top_user(f)[0] for f in tops]
             retained = len(golem) == 2 and any(golem) and any('callerOwns' in fn for fn, g in zip(fns, golem) if not g)
+            # in-place monoids of the harness (Combine updates and returns its left operand, a fresh Empty per call) are
+            # called by the library only: two such calls racing on one value mean the library handed the same accumulator
+            # to two goroutines at once
+            shared_acc = len(fns) == 2 and all(re.search(r'(tallyMonoid|bagMonoid)\.Combine', fn) for fn in fns)
             reports.setdefault(key, dict(key=key, text=block.strip()[:6000], n=0,
                                          golem_only=all(golem) and len(golem) == 2,
-                                         golem_any=any(golem), retained=retained))
+                                         golem_any=any(golem), retained=retained, shared_acc=shared_acc))
             reports[key]['n'] += 1
     return list(reports.values())
 
@@ -498,6 +502,9 @@ def run_property(pid, tier, seed, replay=None):
             continue
         if r['golem_only']:
             violations.append(dict(sig='%s/race/%s' % (pid, r['key']), desc='data race between golem frames: ' + r['key'], case=None, n=r['n'], stderr=r['text'], mode='race'))
+        elif r.get('shared_acc'):
+            violations.append(dict(sig='%s/race/shared-accumulator/%s' % (pid, r['key']), desc='the library combines into one accumulator from two goroutines at once (in-place monoid whose Combine updates its left operand): ' + r['key'],
+                                   case=None, n=r['n'], stderr=r['text'], mode='race'))
         elif r.get('retained'):
             violations.append(dict(sig='%s/race/retained-argument/%s' % (pid, r['key']), desc='a library goroutine still reads the slice the caller passed, after the call returned and while the caller writes to its own slice: ' + r['key'],
                                    case=None, n=r['n'], stderr=r['text'], mode='race'))
